@@ -156,7 +156,8 @@ def c04_hook(state):
             out["violations"].append({"kind": "flags:both", "detail": "terminated and truncated together", "replay": rp})
         if term:
             out["counts"]["terminal"] += 1
-            ends = [o.end_time.time for j in s.jobs for o in j.operations]
+            ends = [o.end_time.time for j in s.jobs for o in j.operations
+                    if getattr(o.end_time, "time", None) is not None]
             mk = max(ends) if ends else None
             if info.get("makespan") != s.time.time or (mk is not None and info.get("makespan") != mk):
                 out["violations"].append({"kind": "flags:makespan", "detail": "makespan %s, clock %s, latest completion %s"
